@@ -59,6 +59,7 @@ type FuncContract struct {
 	Results     []string // optional result names
 	Skip        bool     // under contract for callers only (body not verified); listed as assumed
 	Sweep       bool     // annotation-free safety sweep only
+	Refines     []string // keys of interface-method libspecs this method has to satisfy (behavioural subtyping)
 	Opts        map[string]string
 	ReplayTmpl  string
 	ReplayVals  []ReplayVal
@@ -145,7 +146,7 @@ func newContracts() *Contracts {
 var clauseKeywords = map[string]bool{
 	"func": true, "type": true, "tags": true, "mode": true, "requires": true, "modifies": true, "ensures": true,
 	"loop": true, "at": true, "ghost": true, "invariant": true, "pure": true, "axiom": true, "lemma": true,
-	"trusted": true, "panics": true, "noreturn": true, "params": true, "results": true, "skip": true, "sweep": true,
+	"trusted": true, "panics": true, "noreturn": true, "params": true, "results": true, "skip": true, "sweep": true, "refines": true,
 	"ifaceghost": true, "assume-text": true, "opt": true, "smt": true, "replay": true, "intview": true, "lock": true, "lockinv": true, "rely": true, "globallock": true, "globallockinv": true,
 }
 
@@ -303,6 +304,11 @@ func (c *Contracts) loadFile(path, pkg string, trusted bool) error {
 			curF.Skip = true
 		case "sweep":
 			curF.Sweep = true
+		case "refines":
+			if curF == nil {
+				return fmt.Errorf("%s:%d: refines outside func", path, rc.line)
+			}
+			curF.Refines = append(curF.Refines, strings.TrimSpace(rc.text))
 		case "opt":
 			kv := strings.SplitN(rc.text, "=", 2)
 			v := "true"
